@@ -86,40 +86,11 @@ func c21(r *core.Run) {
 		}
 		r.Check(rule, key+":parse-results-forwarded", p.Rel(c.Pos()), okParse, "hash, auxiliary byte and parse status must be the three results of ParsePacketV4/V6 for this packet, in that order")
 		r.Check(rule, key+":packet-type-and-size", p.Rel(c.Pos()), srcType != nil && core.ObjOf(info, c.Args[1]) == srcType && core.ObjOf(info, c.Args[2]) == srcSize, "packet type and size must be the values delivered by the packet source for this packet")
-		// (3) refusal handling: `if !buf.Add(...) { captureErrors <- ErrLocalBufferOverflow; ConsumeUnlockRequest(); break }`
-		okRef := false
-		core.Walk(f.Decl.Body, false, func(y ast.Node) bool {
-			ifs, ok := y.(*ast.IfStmt)
-			if !ok {
-				return true
-			}
-			u, ok := ast.Unparen(ifs.Cond).(*ast.UnaryExpr)
-			if !ok || u.Op != token.NOT || ast.Unparen(u.X) != ast.Expr(c) {
-				return true
-			}
-			sends, consumes, leaves := false, false, false
-			for _, st := range ifs.Body.List {
-				switch s := st.(type) {
-				case *ast.SendStmt:
-					if o := core.ObjOf(info, selOrIdent(s.Value)); o != nil && o.Name() == "ErrLocalBufferOverflow" {
-						sends = true
-					}
-				case *ast.ExprStmt:
-					if cc, ok := s.X.(*ast.CallExpr); ok {
-						if _, m := core.MethodCall(info, cc); m == "ConsumeUnlockRequest" {
-							consumes = true
-						}
-					}
-				case *ast.BranchStmt:
-					leaves = s.Tok == token.BREAK
-				case *ast.ReturnStmt:
-					leaves = true
-				}
-			}
-			okRef = sends && consumes && leaves
-			return true
-		})
-		r.Check(rule, key+":refusal-reported", p.Rel(c.Pos()), okRef, "a refused insert must report ErrLocalBufferOverflow, consume the pending unlock request and stop buffering (the only permitted loss is an explicitly reported overflow)")
+		// (3) refusal handling, read off the paths that leave the insert: the result must be tested (directly or through
+		// the local it is stored in) before the next packet, and every path on which it is known to be false must send
+		// ErrLocalBufferOverflow, consume the unlock request and leave the buffering loop.
+		okRef, whyRef := c21Refusal(info, core.GraphOf(f), c)
+		r.Check(rule, key+":refusal-reported", p.Rel(c.Pos()), okRef, "a refused insert must report ErrLocalBufferOverflow, consume the pending unlock request and stop buffering (the only permitted loss is an explicitly reported overflow): "+whyRef)
 		return true
 	})
 	if nAdd < 2 {
@@ -349,4 +320,108 @@ func c21Siblings(r *core.Run, p *core.Prog) {
 	if n != 2 {
 		r.Undecided(rule, "process:addToFlowLog-sites", p.Rel(f.Decl.Pos()), fmt.Sprintf("%d addToFlowLog calls in process (2 expected)", n))
 	}
+}
+
+// c21Refusal follows every path that leaves the LocalBuffer.Add call c. The boolean result is carried either by the
+// call expression itself (when it is the branch condition) or by the local it is assigned to. A path is fine once the
+// result is known to be true. A path on which it is known to be false must send ErrLocalBufferOverflow and call
+// ConsumeUnlockRequest before the function ends, and must not come back to the insert. A path that reaches the next
+// iteration, the end of the loop or a reassignment of the carrier without having tested the result drops the refusal.
+func c21Refusal(info *types.Info, g *core.Graph, c *ast.CallExpr) (bool, string) {
+	start := g.NodeOf(c)
+	if start < 0 {
+		return false, "insert not found in the control-flow graph"
+	}
+	var carrier types.Object
+	if a, ok := g.Nodes[start].(*ast.AssignStmt); ok && len(a.Lhs) == 1 && len(a.Rhs) == 1 && ast.Unparen(a.Rhs[0]) == ast.Expr(c) {
+		carrier = core.ObjOf(info, a.Lhs[0])
+	}
+	type state struct {
+		n                   int
+		known               int // 0 unknown, 1 true, 2 false
+		sent, consumed, off bool
+	}
+	seen := map[state]bool{}
+	why := ""
+	var walk func(st state)
+	step := func(st state, next int) {
+		ns := st
+		ns.n = next
+		walk(ns)
+	}
+	walk = func(st state) {
+		if why != "" || seen[st] {
+			return
+		}
+		seen[st] = true
+		if st.n != start || st.off {
+			if st.n == start {
+				if st.known == 2 {
+					why = "a refused insert is followed by another iteration"
+				} else if st.known == 0 {
+					why = "the result of the insert is not tested before the next packet is buffered"
+				}
+				return
+			}
+			if st.n == core.Exit {
+				switch {
+				case st.known == 0:
+					why = "the result of the insert is not tested"
+				case st.known == 2 && !(st.sent && st.consumed):
+					why = "a path on which the insert was refused reaches the end of the function without reporting the overflow and consuming the unlock request"
+				}
+				return
+			}
+		}
+		st.off = true
+		n := g.Nodes[st.n]
+		if n != nil && st.n != start {
+			if a, ok := n.(*ast.AssignStmt); ok && carrier != nil && st.known == 0 {
+				for _, l := range a.Lhs {
+					if core.ObjOf(info, l) == carrier {
+						why = "the result of the insert is overwritten before it is tested"
+						return
+					}
+				}
+			}
+			if s, ok := n.(*ast.SendStmt); ok {
+				if o := core.ObjOf(info, selOrIdent(s.Value)); o != nil && o.Name() == "ErrLocalBufferOverflow" {
+					st.sent = true
+				}
+			}
+			for _, cc := range core.Calls(n, false) {
+				if _, m := core.MethodCall(info, cc); m == "ConsumeUnlockRequest" {
+					st.consumed = true
+				}
+			}
+		}
+		if t, e, ok := g.CondEdges(st.n); ok {
+			if cond, isExpr := n.(ast.Expr); isExpr && st.known == 0 {
+				for bi, next := range []int{t, e} {
+					ns := st
+					atoms, truths := atomsOf(cond, bi == 0)
+					for i, at := range atoms {
+						at = ast.Unparen(at)
+						if at == ast.Expr(c) || (carrier != nil && core.ObjOf(info, at) == carrier) {
+							if truths[i] {
+								ns.known = 1
+							} else {
+								ns.known = 2
+							}
+						}
+					}
+					if ns.known == 1 {
+						continue
+					}
+					step(ns, next)
+				}
+				return
+			}
+		}
+		for _, next := range g.Succ[st.n] {
+			step(st, next)
+		}
+	}
+	walk(state{n: start})
+	return why == "", why
 }
